@@ -1251,6 +1251,19 @@ def fam_ldperm(g, prop, count, types, exhaustive3=False):
                 mag = 2.0 ** r.randint(-span, span) * (r.uniform(1, 1.99) if fl else 1.0)
                 sgn = r.choice([1.0, -1.0])
                 A[kk] = (sgn * mag, 0.0) if (not cplx or r.random() < 0.5) else (0.0, sgn * mag)
+            if r.random() < 0.2 and n >= 2:
+                # explicitly stored zeros (e.g. the zero block of a saddle-point matrix kept in the pattern), on the diagonal
+                # too: they are not candidates for the matching; entries below one in magnitude compete with them
+                for _ in range(r.randint(1, n)):
+                    kk = (r.randrange(n), r.randrange(n)) if r.random() < 0.5 else (lambda d: (d, d))(r.randrange(n))
+                    if kk not in A or r.random() < 0.3:
+                        A[kk] = (0.0, 0.0)
+                if r.random() < 0.5:
+                    A = {kk: ((v[0] * 2.0 ** -3, v[1] * 2.0 ** -3) if v != (0.0, 0.0) else v) for kk, v in A.items()}
+                if not has_perfect_matching({kk for kk, v in A.items() if v != (0.0, 0.0)}, n) and r.random() < 0.7:
+                    for d in range(n):
+                        if A.get((d, (d + 1) % n), (0.0, 0.0)) == (0.0, 0.0):
+                            A[(d, (d + 1) % n)] = (2.0 ** -r.randint(0, 4), 0.0)
             lines = g.mat_lines(A, n, n, "NC", cplx) + ["call ldperm 5", "destroy all", "ledger"]
             lst.append({"id": "%s-ldperm%s%s-%05d-%s" % (prop, tag, "f" if fl else "", i, ty), "lines": lines, "n": n})
         out[ty] = lst
